@@ -62,5 +62,10 @@ fn archive_k(k: usize) {
 #[cfg_attr(kani, kani::proof)] #[cfg_attr(kani, kani::unwind(6))]
 pub fn c07_archive_1_1() {
     two_updates(1, 1, 0); two_updates(1, 1, 1); two_updates(1, 1, 2); two_updates(1, 1, 3);
-    archive_k(1); archive_k(3);
 }
+/// @verif anchor=ElitistArchive::update bound="updates with 1 then 1 individuals; capacity 1; all objective values"
+#[cfg_attr(kani, kani::proof)] #[cfg_attr(kani, kani::unwind(5))]
+pub fn c07_archive_k1() { archive_k(1) }
+/// @verif anchor=ElitistArchive::update bound="updates with 1 then 1 individuals; capacity 3 (room left); all objective values"
+#[cfg_attr(kani, kani::proof)] #[cfg_attr(kani, kani::unwind(5))]
+pub fn c07_archive_k3() { archive_k(3) }
